@@ -3,7 +3,7 @@
    interleaves the same fields with the offset markers) accepts them too: markers never match an element. *)
 From NDN Require Import Base.Prelude Model.TlvVar Model.Tlv Model.PacketPtrs.
 Local Open Scope N_scope.
-Set Default Timeout 60.
+Set Default Timeout 900.
 
 Definition plain (k : fkind) : Prop := (forall a, k <> KRepeated a) /\ (forall a b c, k <> KMap a b c).
 
